@@ -22,7 +22,8 @@ Definition E_MISSING_END := 63.
 Definition E_INVALID_END := 64.
 Definition E_MISSING_VALUE := 65.
 Definition E_INVALID_VALUE := 66.
-Definition E_FILE_NOT_SORTED := 70.      (* parallel task meets a line of another chromosome *)
+Definition E_FILE_NOT_SORTED := 70.
+Definition E_SPLIT := 12.                 (* not grouped: a chromosome comes back in a second run (do_read: the id map already has it) *)      (* parallel task meets a line of another chromosome *)
 
 (* ================= text level ================= *)
 (* ASCII part of char::is_whitespace (str::trim_end): space, \t \n \v \f \r *)
@@ -128,6 +129,8 @@ Definition bb_check_val (len : N) (cur : entry) (next : option entry) : res unit
        end.
 
 Definition name_ltb (a b : name) : bool := match name_cmp a b with Lt => true | _ => false end.
+(* IdMap::contains on the chromosomes started so far *)
+Definition seen_b (c : name) (seen : list name) : bool := existsb (name_eqb c) seen.
 
 Section Source.
 Context {V : Type}.
@@ -139,20 +142,21 @@ Variable sizes : list (name * N).
    size; [v]: the value read but not yet handed to do_process; [rest]: the lines not yet read.
    Order of events for one value: (on a change of chromosome: order check, then start_processing
    = size lookup), read the next line (a parse error is returned before the held value is
-   processed), do_process(held value, next value if it is on the same chromosome). *)
-Fixpoint serial_loop (c : name) (len : N) (v : V) (rest : list (pline V)) : res unit :=
+   processed), do_process(held value, next value if it is on the same chromosome).
+   [seen]: the chromosomes start_processing has been called for (the id map's keys). *)
+Fixpoint serial_loop (seen : list name) (c : name) (len : N) (v : V) (rest : list (pline V)) : res unit :=
   match rest with
   | [] => chk len v None
   | (_, PErr e) :: _ => Err e
   | (c', POk v') :: rest' =>
       if name_eqb c' c then
-        do _ <- chk len v (Some v'); serial_loop c len v' rest'
+        do _ <- chk len v (Some v'); serial_loop seen c len v' rest'
       else
         do _ <- chk len v None;
         if sort_all && negb (name_ltb c c') then Err E_CHROM_ORDER else
         match lookup c' sizes with
         | None => Err E_UNKNOWN_CHROM
-        | Some len' => serial_loop c' len' v' rest'
+        | Some len' => if seen_b c' seen then Err E_SPLIT else serial_loop (seen ++ [c']) c' len' v' rest'
         end
   end.
 Definition serial (l : list (pline V)) : res unit :=
@@ -162,7 +166,7 @@ Definition serial (l : list (pline V)) : res unit :=
   | (c, POk v) :: rest =>
       match lookup c sizes with
       | None => Err E_UNKNOWN_CHROM
-      | Some len => serial_loop c len v rest
+      | Some len => serial_loop [c] c len v rest
       end
   end.
 
@@ -183,41 +187,40 @@ Fixpoint par_task (c : name) (len : N) (ls : list (pline V)) : res unit :=
 
 (* the `while remaining && queued_reads.len() < 5` loop: [slots] = 5 - queue length.
    For each chromosome popped: assert!(curr != next) , order check against the next index entry,
-   start_processing (size lookup), spawn.  Returns the runs left and the grown queue. *)
-Fixpoint par_fill (slots : nat) (remaining : list (name * list (pline V))) (queue : list (res unit))
-  : res (list (name * list (pline V)) * list (res unit)) :=
+   start_processing (size lookup, then the id map must not know the chromosome yet), spawn.
+   Returns the runs left, the grown queue and the chromosomes started. *)
+Fixpoint par_fill (slots : nat) (remaining : list (name * list (pline V))) (queue : list (res unit)) (seen : list name)
+  : res (list (name * list (pline V)) * list (res unit) * list name) :=
   match slots with
-  | O => Ok (remaining, queue)
+  | O => Ok (remaining, queue, seen)
   | S k =>
       match remaining with
-      | [] => Ok ([], queue)
+      | [] => Ok ([], queue, seen)
       | (c, ls) :: rest =>
           let next := match rest with (n, _) :: _ => Some n | [] => None end in
+          let start := match lookup c sizes with
+                       | None => Err E_UNKNOWN_CHROM
+                       | Some len => if seen_b c seen then Err E_SPLIT
+                                     else par_fill k rest (queue ++ [par_task c len ls]) (seen ++ [c])
+                       end in
           match next with
           | Some n => if name_eqb c n then Panic else
-                      if sort_all && name_ltb n c then Err E_CHROM_ORDER else
-                      match lookup c sizes with
-                      | None => Err E_UNKNOWN_CHROM
-                      | Some len => par_fill k rest (queue ++ [par_task c len ls])
-                      end
-          | None => match lookup c sizes with
-                    | None => Err E_UNKNOWN_CHROM
-                    | Some len => par_fill k rest (queue ++ [par_task c len ls])
-                    end
+                      if sort_all && name_ltb n c then Err E_CHROM_ORDER else start
+          | None => start
           end
       end
   end.
-Fixpoint par_loop (fuel : nat) (remaining : list (name * list (pline V))) (queue : list (res unit)) : res unit :=
+Fixpoint par_loop (fuel : nat) (remaining : list (name * list (pline V))) (queue : list (res unit)) (seen : list name) : res unit :=
   match fuel with
   | O => Fuel
   | S f =>
-      do (remaining', queue') <- par_fill (5 - length queue) remaining queue;
-      match queue' with
+      do (rq, seen') <- par_fill (5 - length queue) remaining queue seen;
+      match snd rq with
       | [] => Ok tt
-      | r :: q => do _ <- r; par_loop f remaining' q
+      | r :: q => do _ <- r; par_loop f (fst rq) q seen'
       end
   end.
-Definition parallel (rs : list (name * list (pline V))) : res unit := par_loop (S (length rs)) rs [].
+Definition parallel (rs : list (name * list (pline V))) : res unit := par_loop (S (length rs)) rs [] [].
 End Source.
 
 (* the chromosome index of a grouped file: runs of lines with the same chromosome field *)
@@ -285,26 +288,32 @@ Context {V : Type}.
 Variable vclass : N -> V -> option V -> option N.
 Variable sort_all : bool.
 Variable sizes : list (name * N).
-(* class of the item [cur] whose predecessor is [prev] and successor [next] *)
-Definition item_class (prev : option (name * V)) (cur : name * V) (next : option (name * V)) : option N :=
+(* does [cur] start a new run of lines? *)
+Definition new_run (prev : option (name * V)) (cur : name * V) : bool :=
+  match prev with None => true | Some p => negb (name_eqb (fst cur) (fst p)) end.
+(* class of the item [cur] whose predecessor is [prev] and successor [next]; [seen]: the
+   chromosomes of the runs that began before this item *)
+Definition item_class (seen : list name) (prev : option (name * V)) (cur : name * V) (next : option (name * V)) : option N :=
   let c := fst cur in
-  let new_run := match prev with None => true | Some p => negb (name_eqb c (fst p)) end in
   let order_bad := match prev with
                    | None => false
-                   | Some p => new_run && sort_all && negb (name_ltb (fst p) c)
+                   | Some p => new_run prev cur && sort_all && negb (name_ltb (fst p) c)
                    end in
   if order_bad then Some E_CHROM_ORDER else
   match lookup c sizes with
   | None => Some E_UNKNOWN_CHROM
   | Some len =>
+      if new_run prev cur && seen_b c seen then Some E_SPLIT else
       vclass len (snd cur) (match next with
                             | Some n => if name_eqb (fst n) c then Some (snd n) else None
                             | None => None end)
   end.
-Fixpoint classes (prev : option (name * V)) (l : list (name * V)) : list (option N) :=
+Definition step_seen (seen : list name) (prev : option (name * V)) (cur : name * V) : list name :=
+  if new_run prev cur then seen ++ [fst cur] else seen.
+Fixpoint classes (seen : list name) (prev : option (name * V)) (l : list (name * V)) : list (option N) :=
   match l with
   | [] => []
-  | x :: r => item_class prev x (hd_error r) :: classes (Some x) r
+  | x :: r => item_class seen prev x (hd_error r) :: classes (step_seen seen prev x) (Some x) r
   end.
 Fixpoint first_some (l : list (option N)) : option N :=
   match l with [] => None | Some k :: _ => Some k | None :: r => first_some r end.
@@ -312,7 +321,7 @@ Fixpoint first_some (l : list (option N)) : option N :=
 Definition rule_verdict (l : list (name * V)) : res unit :=
   match l with
   | [] => Err E_EMPTY
-  | _ => match first_some (classes None l) with Some k => Err k | None => Ok tt end
+  | _ => match first_some (classes [] None l) with Some k => Err k | None => Ok tt end
   end.
 End Classes.
 
